@@ -140,3 +140,7 @@ Proof.
     + rewrite (cnt_perm _ _ _ _ (Rsort_perm b)). rewrite Hl, <- (Rsort_length b).
       apply sorted_cnt_gt; [apply Rsort_sorted|]. rewrite Rsort_length. lia.
 Qed.
+
+Lemma last_as_nth {A} (l : list A) d : last l d = nth (length l - 1) l d.
+Proof. induction l as [|a l IH]; [reflexivity|]. destruct l as [|b l]; [reflexivity|].
+  change (last (a :: b :: l) d) with (last (b :: l) d). rewrite IH. cbn [length]. replace (S (S (length l)) - 1)%nat with (S (length l - 0)) by lia. replace (S (length l) - 1)%nat with (length l - 0)%nat by lia. reflexivity. Qed.
